@@ -34,7 +34,7 @@ def run_canary(c):
                 return dict(c, outcome='STALE', detail='pattern occurs %d times: %r' % (s.count(ed['old']), ed['old'][:60]))
             s = s.replace(ed['old'], ed['new'])
         open(path, 'w').write(s)
-        env = dict(os.environ, VERIF_REPO=os.path.join(tmp, 'repo'), VERIF_OUT=os.path.join(tmp, 'out'))
+        env = dict(os.environ, VERIF_REPO=os.path.join(tmp, 'repo'), VERIF_OUT=os.path.join(tmp, 'out'), VERIF_DYN_LAZY='1')
         res = {}
         for prop in c.get('expect_violation', []) + c.get('expect_quiet', []):
             p = subprocess.run([sys.executable, os.path.join(VERIF, 'vf', 'main.py'), 'check', prop, '--tier', 'quick'],
